@@ -171,6 +171,45 @@ fn large_cases(deadline: &Deadline) -> Stats {
     })
 }
 
+/// `bits(k, e)` for every k from 1 to 64 over patterned values: k one-bit columns, most significant
+/// bit first (the widest forms lie far outside the enumerated programs, whose rows have two columns).
+fn wide_bits_cases(deadline: &Deadline) -> Stats {
+    par_range("bits(k, e) for k = 1..=64 x 12 patterned values, alone and split as bits(k-j, e >> j) bits(j, e)", 64, deadline, |idx, st| {
+        let k = idx as usize + 1;
+        let mut sigs: Vec<Sig> = (0..k).map(|i| Sig::inp(&format!("B{i}"), 1, 0)).collect();
+        sigs.push(Sig::inp("T", 8, 0));
+        sigs.push(Sig::out("Q", 4));
+        let mut header: Vec<String> = (0..k).map(|i| format!("B{i}")).collect();
+        header.push("T".into());
+        header.push("Q".into());
+        let vals: [i64; 12] = [-1, i64::MIN, 1, i64::MAX, 0x5555_5555_5555_5555, 0xAAAA_AAAA_AAAA_AAAAu64 as i64, 0x0123_4567_89AB_CDEF, 1i64 << (k - 1).min(62), (1i64 << (k - 1).min(62)) - 1, -2, 0x8000_0000, 0xFFFF_FFFF];
+        let mut body = vec![];
+        for (i, v) in vals.iter().enumerate() {
+            let e = || bin(BinOp::Sub, Expr::Lit(0, Radix::Dec), Expr::Lit(v.wrapping_neg(), Radix::Dec));
+            let e = if *v >= 0 { lit(*v) } else if *v == i64::MIN { bin(BinOp::Shl, lit(1), lit(63)) } else { e() };
+            body.push(Stmt::Row(vec![Entry::Bits(k as u8, e.clone()), Entry::Lit(i as i64, Radix::Dec), Entry::X]));
+            if k >= 2 {
+                let j = k / 2;
+                body.push(Stmt::Row(vec![Entry::Bits((k - j) as u8, bin(BinOp::Shr, e.clone(), lit(j as i64))), Entry::Bits(j as u8, e), Entry::Lit(i as i64, Radix::Dec), Entry::X]));
+            }
+        }
+        let prog = Program { header, body };
+        let text = text(&prog);
+        let script = vec![Step::Ans(vec![("Q".into(), V::Num(1))])];
+        let r = ref_run_fuel(&prog, &sigs, &script, 100_000, 100);
+        assert!(r.end == RefEnd::Done, "wide bits case {k} does not finish in the reference: {:?}", r.end);
+        st.evals += 1;
+        st.nontrivial += 1;
+        st.witness("bits_of_every_width");
+        let mut opts = RunOpts::new(r.items.len() + 1);
+        opts.repeat_last = true;
+        let obs = run_dynamic(&text, &sigs, true, &script, &opts);
+        if let Some((i, m)) = run_mismatch(&r, &obs, Proj::ROWS, None) {
+            st.violation(&format!("bits(k, e) over many columns: {}", classify(&m)), (12 << 56) + idx, format!("bits({k}, e) over {k} one-bit columns\nprogram:\n{text}first difference at {m} (item {i})"), || dyn_replay(&text, &sigs, true, &script, &opts, ref_items_brief(&r), &obs, &m));
+        }
+    })
+}
+
 /// The real test programs of the repository's .dig fixtures: parsed by the reference grammar,
 /// run by the reference interpreter, compared row by row with the subject. Sources are cut out
 /// of the XML by a plain text scan (independent of the subject's .dig loader); the signal list
@@ -367,6 +406,7 @@ pub fn run(id: &'static str, tier: Tier, seed: u64) -> i32 {
     if !c18 {
         total.merge(fixtures(&deadline));
         total.merge(large_cases(&deadline));
+        total.merge(wide_bits_cases(&deadline));
     }
     if c18 {
         // far beyond the enumerated scope: 30 variables, six of them shadowed at two levels
